@@ -108,7 +108,7 @@ fn single_zone_queries(from: usize, to: usize) {
     kani::cover!(eclass != qclass, "class mismatch");
 }
 
-// @harness props=C22,C07 tier=quick mem=3 t=2400 fn="<SingleZoneCatalog as Catalog>::lookup,<SingleZoneCatalog as Catalog>::get,Name::eq_or_subdomain_of,<Name as PartialEq>::eq"
+// @harness props=C22,C07 tier=quick mem=3 t=1200 fn="<SingleZoneCatalog as Catalog>::lookup,<SingleZoneCatalog as Catalog>::get,Name::eq_or_subdomain_of,<Name as PartialEq>::eq"
 //   bound="entry b.a. (NotYetLoaded or FailedToLoad, any class, any u8 tag); lookup and get of b.a., B.A., c.b.a. with any query class; unwind 7"
 //   sym="entry class:u16, query class:u16, kind, tag" stubs="eq_ignore_ascii_case" cbmc="--max-field-sensitivity-array-size 200" kani="--no-assertion-reach-checks"
 #[kani::proof]
@@ -118,7 +118,7 @@ fn c22_single_zone_catalog_inside() {
     single_zone_queries(0, 3);
 }
 
-// @harness props=C22,C07 tier=thorough mem=3 t=2400 fn="<SingleZoneCatalog as Catalog>::lookup,<SingleZoneCatalog as Catalog>::get,Name::eq_or_subdomain_of,<Name as PartialEq>::eq"
+// @harness props=C22,C07 tier=thorough mem=3 t=1200 fn="<SingleZoneCatalog as Catalog>::lookup,<SingleZoneCatalog as Catalog>::get,Name::eq_or_subdomain_of,<Name as PartialEq>::eq"
 //   bound="same entry; lookup and get of a., the root, b.x., cb.a. (names outside the zone) with any query class; unwind 7"
 //   sym="entry class:u16, query class:u16, kind, tag" stubs="eq_ignore_ascii_case" cbmc="--max-field-sensitivity-array-size 200" kani="--no-assertion-reach-checks"
 #[kani::proof]
